@@ -76,8 +76,9 @@ def run_cache_overlay(ctx, race):
 
 
 def ws_key(ws):
-    return hashlib.sha1(json.dumps([ws['config'], ws['custom'], ws['files'], ws.get('rule_ignore'), ws.get('caps_version'), ws.get('args')],
-                                   sort_keys=True).encode()).hexdigest()[:16]
+    extra = [ws.get(k) for k in ('opts', 'manifests', 'roots', 'project_version', 'ignore', 'rule_levels')]
+    base = [ws['config'], ws['custom'], ws['files'], ws.get('rule_ignore'), ws.get('caps_version'), ws.get('args')]
+    return hashlib.sha1(json.dumps(base + (extra if any(extra) else []), sort_keys=True).encode()).hexdigest()[:16]
 
 
 def canon_key(c):
@@ -109,8 +110,8 @@ def run(ctx):
     fixed_path = os.path.join(ctx.tmp, 'fixed.json')
     json.dump(fixed, open(fixed_path, 'w'))
     procs = []
-    # one process per GOMAXPROCS value; the single-threaded one (the slowest) as two processes that share the workspaces
-    for p, shard in [(16, None), (2, None), (1, '0/2'), (1, '1/2')]:
+    # one process per GOMAXPROCS value; the single-threaded one (the slowest) as three processes that share the workspaces
+    for p, shard in [(16, None), (2, None), (1, '0/3'), (1, '1/3'), (1, '2/3')]:
         tag = '%d%s' % (p, '_' + shard[0] if shard else '')
         out = os.path.join(ctx.tmp, 'c01_%s.jsonl' % tag)
         cmd = [h_race if (race and p == 16) else h, out, ctx.tier, os.path.join(ctx.tmp, 'g' + tag), str(p),
@@ -158,6 +159,8 @@ def run(ctx):
     input_cases = []
     perfile = {'notice_sets': 0, 'violation_counts': 0, 'aggregate_shapes': 0, 'directives': 0}   # workspaces whose per-file results differ in ..
     arg_lists = []
+    versioned = []
+    agg_rules = {}
     for wid in order:
         per = by_ws[wid]
         ws = per[PROCS[0]]['ws']
@@ -166,7 +169,9 @@ def run(ctx):
         hist['config=%s' % ws['config']] = hist.get('config=%s' % ws['config'], 0) + 1
         if ws.get('rule_ignore'):
             hist['per-rule-ignore'] = hist.get('per-rule-ignore', 0) + 1
-        if ws.get('args'):
+        if ws.get('family'):
+            hist['family=%s' % ws['family']] = hist.get('family=%s' % ws['family'], 0) + 1
+        if ws.get('args') and not ws.get('family'):
             hist['argument-list'] = hist.get('argument-list', 0) + 1
             arg_lists.append({'args': ws['args'], 'orders_run': len({json.dumps(o['variants'][r['variant']]) for o in per.values() for r in o['runs']}), 'files': n})
         orc0 = (per[PROCS[0]].get('oracle') or {}).get('files') or []
@@ -217,12 +222,40 @@ def run(ctx):
                 'aggs_a': a['aggs'] if a['aggs'] != b['aggs'] else 'same', 'aggs_b': b['aggs'] if a['aggs'] != b['aggs'] else 'same',
             }, signature={'kind': 'report-differs', 'key': ws_key(ws)})
         o16 = per.get(16)
+        if o16 and o16.get('lookups'):
+            versioned.append({'ws': wid, 'versions_map': o16.get('version_keys'), 'files': len(o16['lookups']),
+                              'lookups_per_file': o16['lookups'][0]['calls'], 'identical_lint_calls': {str(p): len(o['runs']) for p, o in per.items() if isinstance(p, int)}})
+            unstable = [l for l in o16['lookups'] if len(l['versions']) != 1]
+            if unstable:
+                bad_ws.add(wid)
+                vlib.violation(ctx, {'kind': 'rego-version-differs', 'case': {'ws': ws}, 'versions_map': o16.get('version_keys'),
+                                     'what': 'rules.RegoVersionFromVersionsMap selected different Rego versions for %s over %d calls with the map '
+                                             'config.AllRegoVersions builds for this workspace: %s' % (
+                                                 unstable[0]['file'], unstable[0]['calls'], unstable[0]['versions']),
+                                     'files_affected': [l['file'] for l in unstable]},
+                               signature={'kind': 'rego-version-differs', 'key': ws_key(ws)})
         if o16 and o16.get('oracle'):
+            for r in o16.get('agg_rule_list') or []:
+                agg_rules.setdefault(r, {'workspaces_with_entries_of_2_or_more_files': 0, 'orders_evaluated': 0, 'violations_reported': 0,
+                                         'lint_runs_of_those_workspaces': 0})
+            for rc in o16['oracle'].get('agg_rules') or []:
+                a = agg_rules.setdefault(rc['rule'], {'workspaces_with_entries_of_2_or_more_files': 0, 'orders_evaluated': 0, 'violations_reported': 0,
+                                                      'lint_runs_of_those_workspaces': 0, 'not_in_bundle': True})
+                a['violations_reported'] += rc['violations']
+                if rc['files'] >= 2:
+                    a['workspaces_with_entries_of_2_or_more_files'] += 1
+                    a['orders_evaluated'] += rc['orders']
+                    a['lint_runs_of_those_workspaces'] += sum(len(o['runs']) for p, o in per.items() if isinstance(p, int))
             if not o16['oracle']['aggperm_ok']:
                 bad_ws.add(wid)
-                vlib.violation(ctx, {'kind': 'aggregate-rule-order-dependent', 'case': {'ws': ws},
-                                     'what': 'the aggregate phase gave different violations when the entries of input.aggregate were reordered '
-                                             '(hypothesis H_aggperm of c01_lint_schedule_independent)'},
+                d = o16['oracle'].get('agg_diff') or {}
+                vlib.violation(ctx, {'kind': 'aggregate-rule-order-dependent', 'case': {'ws': ws}, 'rules': d.get('rules'),
+                                     'order_a': d.get('order_a'), 'order_b': d.get('order_b'),
+                                     'only_with_order_a': d.get('only_a'), 'only_with_order_b': d.get('only_b'),
+                                     'what': 'the aggregate phase (direct evaluation of the lint query with the "aggregate" operation, every rule '
+                                             'enabled as in the workspace) gave different violations when the entries of input.aggregate were reordered: '
+                                             'rule(s) %s (hypothesis H_aggperm of c01_lint_schedule_independent; the order of the entries is the '
+                                             'order in which the per-file workers finish)' % d.get('rules')},
                                signature={'kind': 'aggregate-rule-order-dependent', 'key': ws_key(ws)})
             for ic in o16['inputs']:
                 input_cases.append((wid, ic))
@@ -333,6 +366,14 @@ def run(ctx):
         'mismatch_model_ws': len(r1), 'mismatch_model_inputs': len(r2), 'mismatch_model_basecache': len(r3), 'workspaces_with_differing_reports': len(bad_ws),
         'histogram': hist, 'phase_seconds': phases,
         'workspaces_whose_per_file_results_differ_in': perfile, 'argument_lists': arg_lists,
+        # H_aggperm rule by rule: the rules of the bundle under test that define aggregate_report (+ custom ones met)
+        'aggregate_report_rules': agg_rules,
+        'aggregate_report_rules_untested': sorted(r for r, a in agg_rules.items()
+                                                  if not a['workspaces_with_entries_of_2_or_more_files'] or not a['violations_reported']),
+        'aggregate_report_rule_covered_means': 'some workspace had entries of >= 2 files for the rule and the aggregate phase was evaluated directly on '
+                                               'several orders of them (orders_evaluated), the workspace was linted for real under GOMAXPROCS 16/2/1, '
+                                               'and the rule reported a violation in some workspace',
+        'versioned_workspaces': versioned,
         'slowest_workspaces_s': sorted(((round(o.get('seconds', 0), 1), 'ws%d@gomaxprocs%d' % (w, p)) for w in order for p, o in by_ws[w].items()
                                         if isinstance(p, int)), reverse=True)[:5],
         'samples': [] if not some else [{'files': [f['name'] for f in some['ws']['files']], 'config': some['ws']['config'],
@@ -341,7 +382,10 @@ def run(ctx):
     })
     return vlib.finish(ctx, 'proof', cov, [
         'per-file rule results and the aggregate phase are oracles (OPA evaluation itself is assumed deterministic; tabulated per run)',
-        'H_aggperm (aggregate_report rules read input.aggregate as a set) is tested by shuffling, not proved',
+        'H_aggperm (aggregate_report rules read input.aggregate as a set) is tested, not proved: rule by rule for every rule of the bundle under '
+        'test that defines aggregate_report (evidence: aggregate_report_rules / _untested), by direct evaluation on reordered entries and by real runs',
+        'Go map iteration order is random per call: configuration shapes processed through maps (Rego versions per directory, rule levels, '
+        'ignore lists) are covered by repetition of identical calls (>= 8 per process) and direct calls of RegoVersionFromVersionsMap, not by proof',
         'the Go scheduler is modelled as any interleaving of the atomic steps Lock/Unlock/load/store of the extracted goroutine shape; '
         'data races outside the modelled shared variables are only looked for by the race detector (thorough tier)',
         'goshape flattens control flow and treats all writes of one field in the critical section as one update',
